@@ -48,6 +48,23 @@ impl HasExtraState<(bool, RecursiveInfo)> for SpanInfo {
 thread_local!(
     static SOUND_KEY: Cell<bool> = Cell::new(false)
 );
+thread_local!(
+    static BYPASS_FLAGGED: Cell<bool> = Cell::new(false)
+);
+
+/// Second diagnostic mode: spans that carry a live left-recursion flag neither read nor write
+/// the memo table (their results depend on the flags, which the shipped key ignores).
+pub fn set_bypass_flagged(on: bool) {
+    BYPASS_FLAGGED.with(|k| k.set(on));
+}
+
+fn live_flags(key: &Key) -> bool {
+    (key.2).1.get_ptr() == key.1 && (key.2).1 != {
+        let mut z = RecursiveInfo::new();
+        z.set_ptr(key.1);
+        z
+    }
+}
 
 /// Diagnostic mode: make the memo key include the left-recursion flags carried in the span
 /// (used to attribute a capacity-dependent result to the flag-insensitive key).
@@ -113,6 +130,9 @@ impl Storage {
                 return None;
             }
         }
+        if BYPASS_FLAGGED.with(|k| k.get()) && live_flags(key) {
+            return None;
+        }
         let ret = self.inner.get(&norm(key));
         if ret.is_some() {
             self.hits.set(self.hits.get() + 1);
@@ -122,6 +142,9 @@ impl Storage {
 
     pub fn insert(&mut self, key: Key, value: Val) {
         point("memo_insert");
+        if BYPASS_FLAGGED.with(|k| k.get()) && live_flags(&key) {
+            return;
+        }
         self.inserts += 1;
         if let Some(cap) = self.cap() {
             if self.live >= cap {
